@@ -49,7 +49,7 @@ def classify(case, detail):
 
 
 def _size(case):
-    m = re.search(r"\(dag(.*?)\) \(res ", case)
+    m = re.search(r"\(dag(.*?)\) \((?:res|crash) ", case)
     return case[:m.end()].count("(f ") if m else 0
 
 
@@ -77,7 +77,7 @@ def distribution_paths(cases, results):
     sizes = {"2-5": 0, "6-12": 0, "13-24": 0}
     nested_empty_mp = nested_mp = root_mp = eligible = declared_nested = arrays = prefix_pairs = 0
     for c in cases:
-        m = re.search(r"\(dag(.*?)\) \(res ", c)
+        m = re.search(r"\(dag(.*?)\) \((?:res|crash) ", c)
         fs = re.findall(r'\(f (\d+) \(([\d ]*)\) (?:-|\(\d+ \d+\)) \(rp([^)]*)\) \(mp([^)]*)\)\)', m.group(1)) if m else []
         n = len(fs)
         sizes["2-5" if n <= 5 else "6-12" if n <= 12 else "13-24"] += 1
@@ -124,7 +124,7 @@ def distribution_paths(cases, results):
 def _shared_then_own(case, mode):
     """number of merged nodes of the first tree of MODE for which a member's list holds an entry that is new to the
     union AFTER an entry that is already collected (the situation of seeded C08-m2 / C09-m6)"""
-    m = re.match(r"\(c08 \w+ \(dag(.*?)\) \(res ", case)
+    m = re.match(r"\(c08 \w+ \(dag(.*?)\) \((?:res|crash) ", case)
     if not m:
         return 0
     plan = {i: d.split() for i, d in re.findall(r"\(f (\d+) \(([\d ]*)\) ", m.group(1))}
@@ -164,7 +164,7 @@ def distribution(cases):
             nested += 1
         if "(panic" in c:
             panics += 1
-        m = re.match(r"\(c08 \w+ \(dag(.*?)\) \(res ", c)
+        m = re.match(r"\(c08 \w+ \(dag(.*?)\) \((?:res|crash) ", c)
         if m:
             fs = re.findall(r"\(f (\d+) \(([\d ]*)\) ", m.group(1))
             have = set(i for i, _ in fs)
@@ -182,7 +182,28 @@ def distribution(cases):
     d["scheduler_tree_differs_from_waves"] = sched_differs
     d["scheduler_tree_with_sequence_inside_parallel"] = nested
     d["implementation_panics"] = panics
+    d["process_killed"] = sum(1 for c in cases if "(crash " in c)
     return d
+
+
+def _spread(chk, state):
+    """conclude_differential reports the five smallest failing cases; a case that kills the process has no result
+    part and is always among the smallest: keep the smallest cases of EVERY failed clause (round robin, five in all)
+    so that one clause does not hide the others."""
+    sf = state.get("specfail", [])
+    if len(sf) <= 5:
+        return
+    chk.coverage["spec_failures_before_selection"] = len(sf)
+    by = {}
+    for x in sorted(sf, key=lambda x: len(x[1])):
+        by.setdefault((x[0], x[2].split(" ")[0]), []).append(x)
+    out, k = [], 0
+    while len(out) < 5 and any(len(v) > k for v in by.values()):
+        for key in sorted(by, key=str):
+            if len(by[key]) > k and len(out) < 5:
+                out.append(by[key][k])
+        k += 1
+    state["specfail"] = out
 
 
 def _run_all(chk, exe, model, n, state, samples):
@@ -239,7 +260,9 @@ def run(chk):
         "list the Go process dies (unguarded nodeDependsOn) -- outside the property, the generator filters such lists",
         "the model's scheduler recursion has fuel S(length l); sufficiency is proved for the legacy pipeline "
         "(c08_organize_waves_total) but not for the scheduler: an out-of-fuel model result is reported as a driver error",
-        "harness/cmd/c08 (generator, tree printer, processor options that isolate the stages)",
+        "harness/cmd/c08 (generator, tree printer, processor options that isolate the stages); every case is observed in a child process "
+        "(header line with the fetch list first, then the result): a case that kills the process (fatal stack overflow, not recoverable) is "
+        "reported as spec clause no_crash with the fetch list as replay, and a new child continues behind it (at most 12 per stream)",
     ]
     chk.proof_side()
     ok, log = vlib.build_model("C08")
@@ -265,6 +288,7 @@ def run(chk):
             if any(kk is None for (kk, _, _) in st.get("specfail", [])):
                 break
 
+    _spread(chk, state)
     vlib.conclude_differential(chk, state, more)
     chk.coverage["samples"] = samples
     try:  # schedule half (end to end on the federation lab): tools/props/c08e.py
@@ -275,7 +299,7 @@ def run(chk):
 
 def _corpus_line(case):
     """(c08 KIND (dag (f ID (DEPS))...) ...) -> corpus line"""
-    m = re.match(r"\(c08 (\w+) \(dag(.*?)\) \(res ", case)
+    m = re.match(r"\(c08 (\w+) \(dag(.*?)\) \((?:res|crash) ", case)
     if not m:
         return None
     if m.group(1) in ("paths", "pathodd"):
